@@ -48,3 +48,34 @@ m('c07_shared_scratch', 'C07', 'job.py',
   "                self._cur = individual\n                costs = self.problem.surrogate.evaluate(individual)\n"
   "                self._cur.costs = costs\n")
 m('c07_no_sharedmem', 'C07', 'operators.py', "verbose=1, require='sharedmem')(", "verbose=1)(")
+
+# ---------------------------------------------------------------- C10
+m('c10_insert_or_ignore', 'C10', 'datastore.py',
+  'sql_individuals_upsert = "INSERT INTO individuals (id, individual) VALUES(?,?) ON CONFLICT(id) DO UPDATE SET individual=excluded.individual;"',
+  'sql_individuals_upsert = "INSERT OR IGNORE INTO individuals (id, individual) VALUES(?,?);"')
+m('c10_rounded_vector', 'C10', 'individual.py', "'vector': list(self.vector),", "'vector': [round(v, 12) for v in self.vector],")
+m('c10_no_final_sync_all_psoga', 'C10', 'algorithm_swarm.py',
+  "        self.problem.logger.info(\"PSOGA: elapsed time: {} s\".format(t))\n        # sync changed individual informations\n"
+  "        self.problem.data_store.sync_all()",
+  "        self.problem.logger.info(\"PSOGA: elapsed time: {} s\".format(t))\n        # sync changed individual informations\n"
+  "        pass")
+m('c10_no_pk', 'C10', 'datastore.py', "individuals (id int PRIMARY KEY, individual json not null);\"\n",
+  "individuals (id int, individual json not null);\"\n")
+m('c10_from_dict_drops_custom', 'C10', 'individual.py', "        individual.custom = dictionary['custom']\n", "        individual.custom = {}\n")
+m('c10_costs_signed_as_costs', 'C10', 'individual.py', "        individual.costs_signed = dictionary['costs_signed']\n",
+  "        individual.costs_signed = dictionary['costs']\n")
+
+# ---------------------------------------------------------------- C11
+m('c11_journal_off', 'C11', 'datastore.py', "c.execute('PRAGMA journal_mode = ON')", "c.execute('PRAGMA journal_mode = OFF')")
+m('c11_early_sync_before_costs', 'C11', 'job.py',
+  "                costs = self.problem.surrogate.evaluate(individual)\n                individual.costs = costs\n",
+  "                costs = self.problem.surrogate.evaluate(individual)\n                individual.state = individual.State.EVALUATED\n"
+  "                self.problem.data_store.sync_individual(individual)\n                individual.costs = costs\n")
+m('c11_batched_commit', 'C11', 'datastore.py',
+  "            conn = self.conn()\n            c = conn.cursor()\n\n            # data\n            try:\n"
+  "                c.execute(self.sql_individuals_upsert, [individual.id, json.dumps(individual.to_dict())])\n"
+  "                conn.commit()\n",
+  "            if getattr(self, '_bconn', None) is None:\n                self._bconn = self.conn()\n                self._bn = 0\n"
+  "            conn = self._bconn\n            c = conn.cursor()\n\n            # data\n            try:\n"
+  "                c.execute(self.sql_individuals_upsert, [individual.id, json.dumps(individual.to_dict())])\n"
+  "                self._bn += 1\n                if self._bn % 4 == 0:\n                    conn.commit()\n")
